@@ -84,6 +84,32 @@ func main() {
 	for _, p := range []*int{nil, new(int)} {
 		try(func() { r := a.NilCheck(p); record("a.NilCheck", 0, r == nil, false, r) })
 	}
+	for _, i := range append(ifaces, error(nil), fmt.Errorf("e")) {
+		i := i
+		try(func() { r := a.CommaOk(i); record("a.CommaOk", 0, r == nil, false, r) })
+		try(func() { r := a.AssertIface(i); record("a.AssertIface", 0, r == nil, true, r) })
+	}
+	for _, s := range [][]int{nil, {}, {1, 2}} {
+		try(func() { r := a.AppendArg(s); record("a.AppendArg", 0, r == nil, false, r) })
+		try(func() { r := a.AppendGrow(s); record("a.AppendGrow", 0, r == nil, false, r) })
+		for n := 0; n < 3; n++ {
+			try(func() { r := a.SliceTail(s, n); record("a.SliceTail", 0, r == nil, false, r) })
+		}
+	}
+	for _, bb := range bools {
+		try(func() { r := a.MaybeCallee(bb); record("a.MaybeCallee", 0, r == nil, false, r) })
+		try(func() { r := a.CallMaybe(bb); record("a.CallMaybe", 0, r == nil, false, r) })
+		try(func() { r := a.CallMaybeIface(bb); record("a.CallMaybeIface", 0, r == nil, true, r) })
+		for _, p := range []*int{nil, new(int)} {
+			try(func() { r := a.PhiJoin(bb, p); record("a.PhiJoin", 0, r == nil, false, r) })
+		}
+	}
+	for _, pp := range []**int{nil, new(*int), func() **int { p := new(int); return &p }()} {
+		try(func() { r := a.LoadPtr(pp); record("a.LoadPtr", 0, r == nil, false, r) })
+	}
+	for _, m := range []map[int]*int{nil, {}, {1: nil}, {1: new(int)}} {
+		try(func() { r := a.MapElem(m); record("a.MapElem", 0, r == nil, false, r) })
+	}
 	for key, o := range table {
 		fmt.Println(key, o.returned, o.outerNil, o.outerNon, o.innerNil, o.innerNon)
 	}
